@@ -168,6 +168,28 @@ func (e *localEnd) dial(id uint32, delay time.Duration) (Tag, error) {
 	return r.Tag, nil
 }
 
+// dialRetry: like dial, but the first call is repeated for up to 15 s until it succeeds (a caller
+// that retries; gRPC re-dials, and with multiplexing knocks again, in the background).
+func (e *localEnd) dialRetry(id uint32, delay time.Duration) (Tag, error) {
+	time.Sleep(delay)
+	cc, err := e.br.Dial(id)
+	if err != nil {
+		return Tag{}, fmt.Errorf("Dial(%d): %w", id, err)
+	}
+	e.conns.Store(id, cc)
+	deadline := time.Now().Add(15 * time.Second)
+	for {
+		r, err := (&grpcHandle{cc: cc, service: "verif.Brokered"}).DoT(Cmd{Op: "tag"}, 10*time.Second)
+		if err == nil {
+			return r.Tag, nil
+		}
+		if time.Now().After(deadline) {
+			return Tag{}, fmt.Errorf("no call on the connection dialled for id %d succeeded within 15 s: %w", id, err)
+		}
+		time.Sleep(100 * time.Millisecond)
+	}
+}
+
 // again makes another call on the connection kept for id.
 func (e *localEnd) again(id uint32) (Tag, error) {
 	v, ok := e.conns.Load(id)
